@@ -414,7 +414,19 @@ def check_scheduled(W, bs, n_batches, kind, p):
     class Info:
         num_workers = W
 
-    sched = KDScheduledTransform(Probe())
+    from kappadata.transforms.base.kd_compose_transform import KDComposeTransform
+
+    class Inherits(Probe):
+        """scaling hook inherited from the parent class, not defined in the class body (like KDRandAugmentCustom)"""
+
+    class Pipeline(KDComposeTransform):
+        """a ready-made pipeline: a compose subclass (like BYOLTransform), wrapped directly"""
+
+        def __init__(self):
+            super().__init__([Inherits()])
+
+    wrapped = (Probe, Inherits, Pipeline)[(n_batches + bs + W) % 3]()
+    sched = KDScheduledTransform(wrapped)
     schedule = sched.schedule
     if kind == "updates":
         kw = dict(updates=n_batches)
